@@ -171,15 +171,20 @@ theorem step_owned (s : St) (op : Op) : (step s op).1.owned = s.owned := by
     split
     · rfl
     · simp only []
+      have c0 := (checkNumber_core s (s.num o)).owned
       split
-      · rw [app]
+      · split
+        · rw [app, c0]
+        · rw [app, c0]
       · split
         · split
+          · rw [(requestNumber_core _ _ _).owned, c0]
           · split
-            · rw [app, (setNumber_objs _ _ _).2.2, (requestNumber_core _ _ _).owned, app]
-            · rw [app, (setNumber_objs _ _ _).2.2, (requestNumber_core _ _ _).owned, app]
-          · rw [(setNumber_objs _ _ _).2.2, (requestNumber_core _ _ _).owned, app]
-        · rw [(requestNumber_core _ _ _).owned, app]
+            · split
+              · rw [app, (setNumber_objs _ _ _).2.2]; show (requestNumber _ _ _).1.owned = _; rw [(requestNumber_core _ _ _).owned, c0]
+              · rw [app, (setNumber_objs _ _ _).2.2]; show (requestNumber _ _ _).1.owned = _; rw [(requestNumber_core _ _ _).owned, c0]
+            · rw [(setNumber_objs _ _ _).2.2]; show (requestNumber _ _ _).1.owned = _; rw [(requestNumber_core _ _ _).owned, c0]
+        · rw [(requestNumber_core _ _ _).owned, c0]
   | extend os =>
     show (extend s os).1.owned = _
     unfold extend
@@ -345,42 +350,51 @@ theorem C06_conflict_noop (s : St) (op : Op) (h : (step s op).2 = .err .numberCo
     · exact ⟨rfl, rfl⟩
     · rename_i hno
       simp only [hno, if_false] at h
-      generalize hs0 : ({ s with link := fun x => if x = o ∧ s.owned = true then true else s.link x } : St) = s0 at h ⊢
-      have hobj0 : s0.objs = s.objs := by rw [← hs0]
-      have hnum0 : s0.num = s.num := by rw [← hs0]
       simp only [] at h ⊢
+      have c0 := checkNumber_core s (s.num o)
       split
-      · rename_i hok; simp [hok] at h
-      · rename_i hnok
-        simp only [hnok, if_false] at h
-        have c1 := append_err_core hnok
-        have c2 := requestNumber_core (append s0 o).1 (s.num o) k
+      · rename_i hok0
+        simp only [hok0, if_true] at h
+        split
+        · rename_i hok; simp [hok] at h
+        · rename_i hnok
+          have c1 := append_err_core hnok
+          exact ⟨by rw [c1.objs, c0.objs], by rw [c1.num, c0.num]⟩
+      · rename_i hnok0
+        simp only [hnok0, if_false] at h
+        have c2 := requestNumber_core (checkNumber s (s.num o)).1 (s.num o) k
         split
         · rename_i n hn
           simp only [hn] at h
-          -- the offered number is free, the object is not a member: the second append cannot conflict
-          have hfree : n ∉ (append s0 o).1.objs.map (append s0 o).1.num := by
-            apply requestNumber_free (a := s.num o) (k := k)
-            cases hr : (requestNumber (append s0 o).1 (s.num o) k).2 <;> simp [hr, Out.int?] at hn ⊢
-            exact hn
-          have ho2 : o ∉ (requestNumber (append s0 o).1 (s.num o) k).1.objs := by
-            rw [c2.objs, c1.objs, hobj0]; exact hno
           split
-          · rename_i hok3
-            simp only [hok3, if_true] at h
-            have hnum3 := setNumber_ok_num hok3
-            have hobj3 := (setNumber_objs (requestNumber (append s0 o).1 (s.num o) k).1 o n).1
-            have hfresh : (setNumber (requestNumber (append s0 o).1 (s.num o) k).1 o n).1.num o ∉
-                (setNumber (requestNumber (append s0 o).1 (s.num o) k).1 o n).1.objs.map
-                  (setNumber (requestNumber (append s0 o).1 (s.num o) k).1 o n).1.num := by
-              rw [hnum3, hobj3, map_update_of_not_mem _ _ _ _ ho2, c2.objs, c2.num]
-              simpa using hfree
-            have hok4 := append_ok_of_fresh hfresh
-            simp [hok4] at h
-          · rename_i hnok3
-            have c3 := setNumber_err_core hnok3
-            exact ⟨by rw [c3.objs, c2.objs, c1.objs, hobj0], by rw [c3.num, c2.num, c1.num, hnum0]⟩
-        · exact ⟨by rw [c2.objs, c1.objs, hobj0], by rw [c2.num, c1.num, hnum0]⟩
+          · rename_i hle; simp [hle] at h
+          · rename_i hpos
+            simp only [hpos, if_false] at h
+            generalize hs3 : ({ (requestNumber (checkNumber s (s.num o)).1 (s.num o) k).1 with
+                link := fun x => if x = o ∧ s.owned = true then true
+                  else (requestNumber (checkNumber s (s.num o)).1 (s.num o) k).1.link x } : St) = s3 at h ⊢
+            have hobj3 : s3.objs = (requestNumber (checkNumber s (s.num o)).1 (s.num o) k).1.objs := by rw [← hs3]
+            have hnum3 : s3.num = (requestNumber (checkNumber s (s.num o)).1 (s.num o) k).1.num := by rw [← hs3]
+            -- the offered number is free, the object is not a member: the second append cannot conflict
+            have hfree : n ∉ (checkNumber s (s.num o)).1.objs.map (checkNumber s (s.num o)).1.num := by
+              apply requestNumber_free (a := s.num o) (k := k)
+              cases hr : (requestNumber (checkNumber s (s.num o)).1 (s.num o) k).2 <;> simp [hr, Out.int?] at hn ⊢
+              exact hn
+            have ho3 : o ∉ s3.objs := by rw [hobj3, c2.objs, c0.objs]; exact hno
+            split
+            · rename_i hok3
+              simp only [hok3, if_true] at h
+              have hn3 := setNumber_ok_num hok3
+              have ho3' := (setNumber_objs s3 o n).1
+              have hfresh : (setNumber s3 o n).1.num o ∉ (setNumber s3 o n).1.objs.map (setNumber s3 o n).1.num := by
+                rw [hn3, ho3', map_update_of_not_mem _ _ _ _ ho3, hobj3, hnum3, c2.objs, c2.num]
+                simpa using hfree
+              have hok4 := append_ok_of_fresh hfresh
+              simp [hok4] at h
+            · rename_i hnok3
+              have c3 := setNumber_err_core hnok3
+              exact ⟨by rw [c3.objs, hobj3, c2.objs, c0.objs], by rw [c3.num, hnum3, c2.num, c0.num]⟩
+        · exact ⟨by rw [c2.objs, c0.objs], by rw [c2.num, c0.num]⟩
   | extend os =>
     change (extend s os).2 = _ at h
     show (extend s os).1.objs = _ ∧ (extend s os).1.num = _
